@@ -48,7 +48,9 @@ TraceH ==
      IN
      /\ ("C17" \in Lens /\ e.pl # "server_id") => (~o.panic /\ Follows(o, exp))
      /\ ("C14" \in Lens /\ e.pl = "server_id") =>
-          /\ ~o.panic /\ Follows(o, exp)
+          /\ ~o.panic
+          \* message types a server never answers (ADVERTISE, REPLY, RECONFIGURE): only "must be discarded" is stated
+          /\ IF e.proto = 6 /\ e.req.type \in {2, 7, 10} THEN (exp.nil => o.nil) ELSE Follows(o, exp)
           /\ (~o.nil /\ e.proto = 4) => o.siaddrok                       \* ... and in siaddr
      /\ ("C19" \in Lens) =>
           /\ ~o.panic                                                     \* returns without panicking
